@@ -2,6 +2,7 @@ package main
 
 import (
 	"fmt"
+	"go/constant"
 	"go/token"
 	"go/types"
 	"sort"
@@ -29,10 +30,25 @@ func init() {
 var upgradeFields = []string{"CurrVersion", "NextVersion", "NextApprovals", "NextVoteBefore", "NextSwitchOn"}
 
 // hdrField: v is a load of <param>.<field> of a *types.Header parameter; returns ("prev"|"curr", field).
+// paramSubst maps the parameters of package-local boolean helpers whose facts
+// were inlined into the verifier's paths to the arguments they were called with.
+var paramSubst = map[*ssa.Parameter]ssa.Value{}
+
 func hdrField(fn *ssa.Function, v ssa.Value) (string, string) {
 	f, base := loadedField(stripConv(v))
 	if f == nil {
 		return "", ""
+	}
+	for i := 0; i < 4; i++ {
+		bp, isP := base.(*ssa.Parameter)
+		if !isP {
+			break
+		}
+		a, has := paramSubst[bp]
+		if !has {
+			break
+		}
+		base = stripConv(a)
 	}
 	p, ok := base.(*ssa.Parameter)
 	if !ok {
@@ -85,7 +101,7 @@ func runC12(c *Ctx) {
 		if !isC || !cv.IsNil() {
 			return
 		}
-		acc = append(acc, accPath{atoms: atomsOf(pr.Facts)})
+		acc = append(acc, accPath{atoms: atomsOf(inlineBoolHelpers(pr.Facts, 2))})
 	})
 	if !okEnum || len(acc) == 0 {
 		c.Rule("C12.W1", "EXHAUSTIVE", "")
@@ -134,7 +150,7 @@ func runC12(c *Ctx) {
 	}
 
 	// ------------------------------------------------------------ W1
-	c.Rule("C12.W1", "EXHAUSTIVE", "on every accepting path of VerifyYouVersionState each of curr.{CurrVersion, NextVersion, NextApprovals, NextVoteBefore, NextSwitchOn} is pinned: it occurs in a true equality whose other side does not mention it, or in both a lower and an upper bound")
+	c.Rule("C12.W1", "EXHAUSTIVE", "on every accepting path of VerifyYouVersionState each of curr.{CurrVersion, NextVersion, NextApprovals, NextVoteBefore, NextSwitchOn} is pinned: it occurs in a true equality whose other side does not mention it, or in both a lower and an upper bound; while a proposal is live its NextVersion, NextVoteBefore and NextSwitchOn are pinned by equality with the parent's (conditions moved into boolean helpers are inlined)")
 	c.Min(4)
 	type key struct{ class, field string }
 	unconstrained := map[key]int{}
@@ -180,6 +196,26 @@ func runC12(c *Ctx) {
 						}
 					}
 				}
+			}
+			// a live proposal is carried over unchanged: its version, window end and switch round are
+			// pinned by EQUALITY WITH THE PARENT'S field; a two-sided bound (the range a NEW proposal
+			// may choose from) would let every later author move the announced switch round
+			if cl == "on-going" && (f == "NextVersion" || f == "NextVoteBefore" || f == "NextSwitchOn") {
+				eqPrev := false
+				for _, a := range p.atoms {
+					if a.Kind != "eq" || !a.Truth {
+						continue
+					}
+					wx, fx := hdrField(vf, a.X)
+					wy, fy := hdrField(vf, a.Y)
+					if fx == f && fy == f && ((wx == "curr" && wy == "prev") || (wx == "prev" && wy == "curr")) {
+						eqPrev = true
+					}
+				}
+				if !eqPrev {
+					unconstrained[key{cl, f}]++
+				}
+				continue
 			}
 			if !(eq || (lo && hi)) {
 				unconstrained[key{cl, f}]++
@@ -570,5 +606,60 @@ func opNames(m map[token.Token]token.Pos) []string {
 		out = append(out, op.String())
 	}
 	sort.Strings(out)
+	return out
+}
+
+// inlineBoolHelpers replaces a fact "helper(args) == t", where helper is a
+// loop-free repository function with one boolean result and exactly one way of
+// returning t (a pure conjunction for true, a pure disjunction for false), by
+// the facts of that way; the helper's parameters are mapped to the arguments
+// through paramSubst. A condition moved into a helper is judged as if it
+// were written in place.
+func inlineBoolHelpers(facts []Fact, depth int) []Fact {
+	if depth == 0 {
+		return facts
+	}
+	var out []Fact
+	for _, f := range facts {
+		v, truth := f.Cond, f.Truth
+		for {
+			if u, ok := v.(*ssa.UnOp); ok && u.Op == token.NOT {
+				v, truth = u.X, !truth
+				continue
+			}
+			break
+		}
+		call, ok := v.(*ssa.Call)
+		if !ok {
+			out = append(out, f)
+			continue
+		}
+		callee := call.Call.StaticCallee()
+		if callee == nil || callee.Blocks == nil || callee.Pkg == nil || !strings.HasPrefix(callee.Pkg.Pkg.Path(), "github.com/youchainhq/go-youchain") || callee.Signature.Results().Len() != 1 || !isBoolType(callee.Signature.Results().At(0).Type()) {
+			out = append(out, f)
+			continue
+		}
+		var ways [][]Fact
+		ok = enumPaths(callee, 200, func(pr PathResult) {
+			rv := pr.Resolve(pr.Ret.Results[0])
+			if cv, isC := rv.(*ssa.Const); isC && cv.Value != nil && cv.Value.Kind() == constant.Bool {
+				if constant.BoolVal(cv.Value) == truth {
+					ways = append(ways, pr.Facts)
+				}
+				return
+			}
+			ways = append(ways, append(append([]Fact(nil), pr.Facts...), Fact{Cond: rv, Truth: truth}))
+		})
+		if !ok || len(ways) != 1 {
+			out = append(out, f)
+			continue
+		}
+		for i, prm := range callee.Params {
+			if i < len(call.Call.Args) {
+				paramSubst[prm] = call.Call.Args[i]
+			}
+		}
+		out = append(out, inlineBoolHelpers(ways[0], depth-1)...)
+	}
 	return out
 }
